@@ -10,7 +10,7 @@
 use crate::rng::Rng;
 use crate::{Ctx, Tier};
 use futures::FutureExt;
-use scylla::verif_hooks::connection::{Lookup, RawConnection, RawResponse, StreamMap};
+use scylla::verif_hooks::connection::{Lookup, RawConnection, RawResponse, StreamIds, StreamMap};
 use std::collections::{BTreeSet, HashMap, HashSet};
 use std::future::Future;
 use std::pin::Pin;
@@ -106,6 +106,131 @@ fn gen_map_random(rng: &mut Rng, len: usize) -> String {
         }
     }
     ops.push("h".to_owned());
+    format!("map {}", ops.join(";"))
+}
+
+/// Fill levels for the cases that keep the UPPER half of the stream-id space in use (seeded change C02-9: `free`
+/// computed the block index in a `u8`, so that every id >= 16384 = 256 blocks released the bit of id - 16384).
+fn high_fill(rng: &mut Rng) -> usize {
+    match rng.below(10) {
+        0..=4 => *rng.pick(&[16385usize, 16386, 16448, 16449, 16500, 20000, 24576, 24577, 32704, 32767, 32768]),
+        5..=7 => rng.range(16385, 32768) as usize,
+        8 => *rng.pick(&[0usize, 1, 64, 65, 8192, 16383, 16384]),
+        _ => rng.range(1, 16384) as usize,
+    }
+}
+
+/// `ids <op>;…` — the bare `StreamIdSet` bitmap (hook `StreamIds`): `A<n>` n allocations, `a` one allocation,
+/// `f<id>` free (any i16; a negative id indexes outside the bitmap), `F<from>:<n>` free a range, `V` list the free
+/// ids (allocate until full, then free what was handed out), `D` the same without giving them back.
+fn gen_ids(rng: &mut Rng) -> String {
+    let k = high_fill(rng);
+    let mut used = vec![false; 32768];
+    let mut n_used = 0usize;
+    let alloc1 = |used: &mut Vec<bool>, n_used: &mut usize| {
+        if let Some(i) = used.iter().position(|u| !*u) {
+            used[i] = true;
+            *n_used += 1;
+        }
+    };
+    for u in used.iter_mut().take(k) {
+        *u = true;
+    }
+    n_used += k;
+    let mut ops: Vec<String> = vec![format!("A{}", k)];
+    let mut pending_pair: Option<usize> = None;
+    for _ in 0..rng.range(3, 28) {
+        match rng.below(100) {
+            0..=47 => {
+                // free a held id, mostly in the upper half / at block and 256-block boundaries
+                let cand = match rng.below(8) {
+                    0 | 1 => *rng.pick(&[16384usize, 16385, 16383, 16447, 16448, 24576, 32767, 32704, 32703, 0, 63, 64, 255, 256, 8192]),
+                    2 | 3 | 4 => rng.range(16384, 32767) as usize,
+                    5 => k.saturating_sub(1 + rng.below(3) as usize),
+                    6 if pending_pair.is_some() => pending_pair.take().unwrap(),
+                    _ => rng.below(32768) as usize,
+                };
+                if used[cand] {
+                    used[cand] = false;
+                    n_used -= 1;
+                }
+                if cand >= 16384 && rng.chance(1, 2) {
+                    pending_pair = Some(cand - 16384);
+                }
+                ops.push(format!("f{}", cand));
+            }
+            48..=50 => ops.push(format!("f{}", *rng.pick(&[-1i64, -2, -63, -64, -65, -16384, -32768]))),
+            51..=75 => {
+                alloc1(&mut used, &mut n_used);
+                ops.push("a".into());
+            }
+            76..=82 => {
+                let n = rng.range(1, 200) as usize;
+                for _ in 0..n {
+                    alloc1(&mut used, &mut n_used);
+                }
+                ops.push(format!("A{}", n));
+            }
+            83..=90 => {
+                let s = (if rng.bool() { rng.range(16000, 32700) } else { rng.range(0, 32699) }) as usize;
+                let n = (rng.range(1, 130) as usize).min(32768 - s);
+                for u in used.iter_mut().skip(s).take(n) {
+                    if *u {
+                        *u = false;
+                        n_used -= 1;
+                    }
+                }
+                ops.push(format!("F{}:{}", s, n));
+            }
+            _ => ops.push("V".into()),
+        }
+    }
+    let _ = n_used;
+    ops.push("D".into());
+    format!("ids {}", ops.join(";"))
+}
+
+/// `map` cases with more than 16384 handlers registered: requests on LOW streams are abandoned (or not), answers
+/// arrive on HIGH streams, new requests are allocated in between. The `A<k>` requests have the ids 1000000 + stream.
+fn gen_map_high(rng: &mut Rng) -> String {
+    let mut k = high_fill(rng);
+    if k < 16385 {
+        k = 16385 + k % 1000;
+    }
+    let mut ops: Vec<String> = vec![format!("A{}", k)];
+    let mut next_req = 1u64;
+    let mut highs: Vec<usize> = Vec::new();
+    for _ in 0..rng.range(4, 22) {
+        match rng.below(10) {
+            0..=2 => {
+                // abandon the request on a low stream whose +16384 partner is held
+                let lo = if rng.chance(1, 4) { *rng.pick(&[0usize, 1, 63, 64]) % (k - 16384) } else { rng.below((k - 16384) as u64) as usize };
+                highs.push(lo + 16384);
+                ops.push(format!("o{}", 1_000_000 + lo));
+            }
+            3..=5 => {
+                let s = if !highs.is_empty() && rng.chance(2, 3) {
+                    highs.swap_remove(rng.below(highs.len() as u64) as usize)
+                } else {
+                    rng.range(16384, k as i64 - 1) as usize
+                };
+                ops.push(format!("l{}", s));
+            }
+            6 | 7 => {
+                ops.push(format!("a{}", next_req));
+                next_req += 1;
+            }
+            8 => ops.push(format!("l{}", rng.below(k as u64))),
+            _ => {
+                let s = rng.range(16300, 16450) as usize;
+                ops.push(format!("L{}:{}", s.min(k - 1), (rng.range(1, 70) as usize).min(k - s.min(k - 1))));
+            }
+        }
+    }
+    for _ in 0..rng.range(1, 4) {
+        ops.push(format!("a{}", next_req));
+        next_req += 1;
+    }
     format!("map {}", ops.join(";"))
 }
 
@@ -340,8 +465,40 @@ fn gen_capacity_cases(rng: &mut Rng, quick: bool, emit: &mut dyn FnMut(String)) 
     }
 }
 
-pub fn generate(rng: &mut Rng, tier: Tier, emit: &mut dyn FnMut(String)) {
+pub fn generate(rng: &mut Rng, tier: Tier, emit_all: &mut dyn FnMut(String)) {
     let quick = tier == Tier::Quick;
+    // the upper half of the id space (ids >= 16384 = block 256 and up) kept in use: the bare bitmap, then the map.
+    // Each of these costs the model about half a second (tens of thousands of allocations), so they are spread
+    // evenly over the case stream (the runner cuts it into contiguous chunks, one per core).
+    let mut heavy: Vec<String> = vec![
+        "ids A32768;f20000;a;f16384;f0;V;a;a;D".to_owned(),
+        "ids A16385;f16384;V;f0;V;A2;D".to_owned(),
+        "ids A70;f-1;f64;f-32768;a;D".to_owned(),
+        "map A16385;o1000000;l16384;a1;l0;a2".to_owned(),
+        "map A32768;o1003616;l20000;a1;a2;l3616;a3".to_owned(),
+    ];
+    for i in 0..(if quick { 200 } else { 4_000 }) {
+        heavy.push(if i % 5 == 4 { gen_map_high(rng) } else { gen_ids(rng) });
+    }
+    heavy.reverse();
+    let stride = if quick { 800 } else { 1_000 };
+    let mut emitted = 0usize;
+    let mut emit_spread = |c: String| {
+        emit_all(c);
+        emitted += 1;
+        if emitted % stride == 0 {
+            if let Some(h) = heavy.pop() {
+                emit_all(h);
+            }
+        }
+    };
+    generate_rest(rng, quick, &mut emit_spread);
+    while let Some(h) = heavy.pop() {
+        emit_all(h);
+    }
+}
+
+fn generate_rest(rng: &mut Rng, quick: bool, emit: &mut dyn FnMut(String)) {
     // hook level: exhaustive over 3 request ids / 3 stream ids
     let alpha = ["a0", "a1", "a2", "o0", "o1", "o2", "l0", "l1", "l2"];
     gen_exhaustive(&alpha, if quick { 5 } else { 6 }, "map", emit);
@@ -691,6 +848,163 @@ fn run_map(ops: &[&str], ctx: &mut Ctx) -> String {
                         out.push(format!("A{}/{}:{}-{}", ok, failed, f(first), f(last)));
                     }
                 }
+            }
+            _ => return "bad-case".into(),
+        }
+    }
+    out.join(",")
+}
+
+/// Ranges `a-b` joined by `+` (`-` if empty) of an increasing list of ids.
+fn id_ranges(ids: &[i16]) -> String {
+    if ids.is_empty() {
+        return "-".to_owned();
+    }
+    let mut parts: Vec<String> = Vec::new();
+    let (mut lo, mut hi) = (ids[0], ids[0]);
+    for &id in &ids[1..] {
+        if hi < i16::MAX && id == hi + 1 {
+            hi = id;
+        } else {
+            parts.push(format!("{}-{}", lo, hi));
+            lo = id;
+            hi = id;
+        }
+    }
+    parts.push(format!("{}-{}", lo, hi));
+    parts.join("+")
+}
+
+/// The bare `StreamIdSet` (hook `StreamIds`). Oracle, independent of the model: `held` = ids handed out by
+/// `allocate` and not yet passed to `free` (the "unanswered requests"); an id in `held` must never be handed out
+/// again, `allocate` may fail only when all 32768 are held, and whenever the free ids are listed (`V` / `D`) they
+/// must be exactly the ids not held: an answered id that stays reserved, or a reserved id released by the answer to
+/// ANOTHER stream, is a failure ("freed id != answered id").
+fn run_ids(ops: &[&str], ctx: &mut Ctx) -> String {
+    let mut set = StreamIds::new();
+    let mut held: BTreeSet<i16> = BTreeSet::new();
+    let mut out: Vec<String> = Vec::new();
+
+    // at most a few reports per case (one wrong bit shows up again in every later allocation of a `V` / `D`)
+    let mut budget = 4u32;
+    fn alloc(set: &mut StreamIds, held: &mut BTreeSet<i16>, budget: &mut u32, ctx: &mut Ctx) -> Option<i16> {
+        match set.allocate() {
+            Some(id) => {
+                if id < 0 && *budget > 0 {
+                    *budget -= 1;
+                    ctx.fail(format!("allocate returned negative stream id {}", id));
+                }
+                if !held.insert(id) && *budget > 0 {
+                    *budget -= 1;
+                    ctx.fail(format!("stream id {} handed out again while its request is still unanswered", id));
+                }
+                Some(id)
+            }
+            None => {
+                if held.len() != 32768 && *budget > 0 {
+                    *budget -= 1;
+                    ctx.fail(format!("allocate failed although only {} stream ids are held", held.len()));
+                }
+                None
+            }
+        }
+    }
+    /// Allocate until the bitmap is full; what comes out must be exactly the ids that were not held.
+    fn drain(set: &mut StreamIds, held: &mut BTreeSet<i16>, budget: &mut u32, ctx: &mut Ctx) -> Vec<i16> {
+        let expect: Vec<i16> = (0..=i16::MAX).filter(|id| !held.contains(id)).collect();
+        let mut got: Vec<i16> = Vec::new();
+        while got.len() <= 32768 {
+            match alloc(set, held, budget, ctx) {
+                Some(id) => got.push(id),
+                None => break,
+            }
+        }
+        got.sort_unstable();
+        if got != expect {
+            let leaked: Vec<i16> = expect.iter().copied().filter(|id| !got.contains(id)).take(3).collect();
+            let stolen: Vec<i16> = got.iter().copied().filter(|id| !expect.contains(id)).take(3).collect();
+            ctx.fail(format!(
+                "free ids are not the answered ids: answered but still reserved {:?}, released without an answer {:?}",
+                leaked, stolen
+            ));
+        }
+        got
+    }
+
+    for op in ops {
+        let Some((c, arg)) = split_op(op) else { return "bad-case".into() };
+        match c {
+            'a' if arg.is_empty() => out.push(match alloc(&mut set, &mut held, &mut budget, ctx) {
+                Some(id) => id.to_string(),
+                None => "full".to_owned(),
+            }),
+            'A' => {
+                let Ok(n) = arg.parse::<u32>() else { return "bad-case".into() };
+                if n > 40_000 {
+                    return "bad-case".into();
+                }
+                let (mut ok, mut failed) = (0u32, 0u32);
+                let (mut first, mut last) = (None, None);
+                for _ in 0..n {
+                    match alloc(&mut set, &mut held, &mut budget, ctx) {
+                        Some(id) => {
+                            ok += 1;
+                            first.get_or_insert(id);
+                            last = Some(id);
+                        }
+                        None => failed += 1,
+                    }
+                }
+                let f = |x: Option<i16>| x.map(|v| v.to_string()).unwrap_or_else(|| "-".into());
+                out.push(format!("A{}/{}:{}-{}", ok, failed, f(first), f(last)));
+            }
+            'f' => {
+                let Ok(id) = arg.parse::<i16>() else { return "bad-case".into() };
+                // `lookup` is only ever called with ids >= 0 (the reader filters negative streams); a negative id
+                // indexes outside the bitmap: the real `free` panics, nothing is changed
+                let r = std::panic::catch_unwind(std::panic::AssertUnwindSafe(|| set.free(id)));
+                match r {
+                    Ok(()) => {
+                        if id < 0 {
+                            ctx.fail(format!("free({}) did not index outside the bitmap", id));
+                        }
+                        held.remove(&id);
+                        out.push("f".to_owned());
+                    }
+                    Err(_) => {
+                        if id >= 0 {
+                            ctx.fail(format!("free({}) panicked for a valid stream id", id));
+                        }
+                        out.push("panic".to_owned());
+                    }
+                }
+            }
+            'F' => {
+                let parts: Vec<&str> = arg.split(':').collect();
+                let (Some(s), Some(n)) = (
+                    parts.first().and_then(|x| x.parse::<usize>().ok()),
+                    parts.get(1).and_then(|x| x.parse::<usize>().ok()),
+                ) else {
+                    return "bad-case".into();
+                };
+                if parts.len() != 2 || s + n > 32768 {
+                    return "bad-case".into();
+                }
+                for id in s..s + n {
+                    set.free(id as i16);
+                    held.remove(&(id as i16));
+                }
+                out.push("F".to_owned());
+            }
+            'V' | 'D' if arg.is_empty() => {
+                let got = drain(&mut set, &mut held, &mut budget, ctx);
+                if c == 'V' {
+                    for id in &got {
+                        set.free(*id);
+                        held.remove(id);
+                    }
+                }
+                out.push(format!("{}{}", c, id_ranges(&got)));
             }
             _ => return "bad-case".into(),
         }
@@ -1331,6 +1645,7 @@ pub fn run(case: &str, ctx: &mut Ctx) -> String {
     }
     match w.first().copied() {
         Some("map") if w.len() <= 2 => run_map(&ops(w.get(1)), ctx),
+        Some("ids") if w.len() <= 2 => run_ids(&ops(w.get(1)), ctx),
         Some("conn") if (w.len() == 2 || w.len() == 3) && (w[1] == "0" || w[1] == "1") => {
             run_conn(w[1] == "1", &ops(w.get(2)), ctx)
         }
